@@ -11,6 +11,8 @@ CONSTANTS
   OutValues <- ValuesFew
   OutKinds <- KindsFew
   MCScopes <- ScopesTop
+  MCRoutes <- RoutesOne
+  MCExits <- ExitsNo
   Emitting = TRUE
 INVARIANT PContained
 INVARIANT PZeroIff
